@@ -232,7 +232,7 @@ class ResolveIndexes(FunctionContract):
         'X[`2003`:]': 'X[3::]', 'X[`2000`:`2000`]': 'X[0:1:]', 'X[1] + Y[`2002`]': 'X[1] + Y[2]', 'X[-1] + Y[`2002`]': 'X[-1] + Y[2]',
         'X[1:3] + Y[`2002`]': 'X[1:3:] + Y[2]', 'X[:0] + Y[`2002`]': 'X[:0:] + Y[2]', 'X[4:0:-1] + Y[`2002`]': 'X[4:0:-1] + Y[2]', 'X[0:2] + Y[`2002`]': 'X[0:2:] + Y[2]',
         'X[::2] + Y[`2002`]': 'X[::2] + Y[2]', 'X[-3:-1] + Y[`2002`]': 'X[-3:-1:] + Y[2]', 'X[`2001`:3]': 'X[1:3:]', 'X[1:`2003`]': 'X[1:4:]',
-        'X[ `2001` ]': 'X[1]', 'X[`1999`]': KeyError, 'X[`abc`]': KeyError, 'X[`2001`:`2002`:1:2]': ValueError, 'X + Y': 'X + Y',
+        'X[ `2001` ]': 'X[1]', '(X + Y)[`2001`]': '(X + Y)[1]', 'lag(X)[`2001`:`2003`]': 'lag(X)[1:4:]', 'lag(X, 2)[`2000`] + (Y)[:`2001`]': 'lag(X, 2)[0] + (Y)[:2:]', 'X[`1999`]': KeyError, 'X[`abc`]': KeyError, 'X[`2001`:`2002`:1:2]': ValueError, 'X + Y': 'X + Y',
     }
 
     def scenarios(self):
